@@ -16,7 +16,7 @@ MAX_PATHS = int(os.environ.get("PYVC_MAX_PATHS", "600"))
 
 class VC:
     __slots__ = ("name", "kind", "label", "tags", "loc", "path", "fnqual", "text", "digest", "status", "reason",
-                 "model", "seconds", "backend", "site", "group", "slot", "_pc", "_extra", "_goal")
+                 "model", "seconds", "backend", "site", "group", "slot", "_pc", "_extra", "_goal", "in_baseline")
 
     def __init__(self, ob, smt2=None, pc=None, extra=None, goal=None):
         self.name, self.kind, self.label, self.tags = ob.name, ob.kind, ob.label, sorted(ob.tags)
@@ -311,22 +311,57 @@ def verify_function(qual):
 
 # ---------------------------------------------------------------------------------------------
 # solver pool
+BASELINE = None
+
+
+def load_baseline():
+    global BASELINE
+    if BASELINE is None:
+        import json
+        pth = os.path.join(os.path.dirname(os.path.dirname(os.path.abspath(__file__))), "baseline", "obligations.json")
+        try:
+            BASELINE = json.load(open(pth))
+        except Exception:
+            BASELINE = {}
+    return BASELINE
+
+
+def budget_for(name, tier):
+    """deterministic per-VC resource budget: 40x what the obligation needed on the unchanged tree"""
+    base = load_baseline().get(name)
+    mult = 1 if tier == "quick" else 4
+    if base is None:
+        return 150_000_000 * mult, False
+    return max(25_000_000, min(40 * int(base), 600_000_000)) * mult, True
+
+
 def _solve(args):
     kind, name, text, rlimit, timeout_ms, slots = args
+    rlimits = rlimit if isinstance(rlimit, (list, tuple)) else None
     out = []
+
+    def fresh_solver():
+        ctx_ = z3.Context()
+        s_ = z3.Solver(ctx=ctx_)
+        s_.set("auto_config", False)
+        s_.set("smt.mbqi", False)
+        s_.set("rlimit", rlimits[0] if rlimits else rlimit)
+        s_.set("timeout", timeout_ms)
+        s_.from_string(text)
+        return ctx_, s_
     try:
-        ctx = z3.Context()
-        s = z3.Solver(ctx=ctx)
-        s.set("auto_config", False)
-        s.set("smt.mbqi", False)
-        s.set("rlimit", rlimit)
-        s.set("timeout", timeout_ms)
-        s.from_string(text)
+        ctx, s = fresh_solver()
     except Exception as e:
         return [(name, k, "error", f"{type(e).__name__}: {e}", None, 0.0) for k in (slots or [None])]
-    for k in (slots if slots is not None else [None]):
+    dirty = False
+    for n_k, k in enumerate(slots if slots is not None else [None]):
         t0 = time.time()
         try:
+            if dirty:                 # a check that did not end in `unsat` leaves clutter behind: start clean
+                ctx, s = fresh_solver()
+                dirty = False
+            if rlimits:
+                s.set("rlimit", rlimits[n_k])
             r = s.check(z3.Bool(k, ctx)) if k is not None else s.check()
             dt = time.time() - t0
             rl = 0
@@ -337,6 +372,8 @@ def _solve(args):
                         rl = st_.get_key_value(k_)
             except Exception:
                 pass
+            if r != z3.unsat:
+                dirty = True
             if r == z3.unsat:
                 out.append((name, k, "unsat", f"rlimit={rl}", None, dt))
             elif r == z3.sat:
@@ -380,8 +417,8 @@ GROUP_MAX = 10
 def discharge(vcs, covers, tier="quick", procs=None):
     """run every VC and cover; VCs that share their hypotheses are solved incrementally in one solver
     (guard literals + check-sat-assuming)"""
-    rlimit = 120_000_000 if tier == "quick" else 1_200_000_000
-    timeout = 120_000 if tier == "quick" else 900_000
+    rlimit = 150_000_000 if tier == "quick" else 600_000_000
+    timeout = 900_000 if tier == "quick" else 3_600_000       # wall-clock backstop only; budgets are rlimits
     groups = {}
     for i, vc in enumerate(vcs):
         key = tuple(t.get_id() for t in vc._pc)
@@ -393,14 +430,17 @@ def discharge(vcs, covers, tier="quick", procs=None):
             sv = z3.Solver()
             for p in vcs[chunk[0]]._pc:
                 sv.add(p)
-            slots = []
+            slots, rls = [], []
             for n_, i in enumerate(chunk):
+                b_, known_ = budget_for(vcs[i].name, tier)
+                rls.append(b_)
+                vcs[i].in_baseline = known_
                 g = z3.Bool(f"__g{n_}")
                 vc = vcs[i]
                 sv.add(z3.Implies(g, z3.And(list(vc._extra) + [z3.Not(vc._goal)])))
                 slots.append(f"__g{n_}")
                 vc.group, vc.slot = len(jobs), f"__g{n_}"
-            jobs.append(("vc", tuple(chunk), sv.to_smt2(), rlimit, timeout, slots))
+            jobs.append(("vc", tuple(chunk), sv.to_smt2(), rls, timeout, slots))
     for i, (nm, text) in enumerate(covers):
         jobs.append(("cover", f"c{i}", text, rlimit // 8, 20_000, None))
     procs = procs or min(16, os.cpu_count() or 4)
@@ -432,8 +472,12 @@ def discharge(vcs, covers, tier="quick", procs=None):
                     vc.status = "failed"          # Boogie convention: not provable; candidate model attached
                 elif st == "error":
                     vc.status = "error"
+                elif getattr(vc, "in_baseline", False) and ("resource" in reason or "rlimit" in reason or "canceled" in reason or "max" in reason):
+                    # discharged on the unchanged tree, now not provable with 40x that effort
+                    vc.status = "failed"
+                    vc.reason = "no proof within 40x the resource use recorded for this obligation on the unchanged tree (" + reason + ")"
                 else:
-                    vc.status = "undecided"       # resource limit / timeout: never a violation by itself
+                    vc.status = "undecided"       # resource limit / timeout on an obligation without baseline: never a violation
             else:
                 i = int(key[1:])
                 cover_res[covers[i][0]] = (st, reason)
